@@ -1,7 +1,8 @@
 ---------------------------- MODULE RoutingTrace ----------------------------
 (***************************************************************************)
 (* Batched trace validation for Routing (code -> spec).  TRACE_FILE holds  *)
-(*   [ {rule, req, events: [{ev, path, present, text, pairs}..]} .. ]      *)
+(*   [ {rule, req, blank, npages, events: [{ev, path, page, present, text,  *)
+(*      pairs}..]} .. ]                                                    *)
 (* one trace per (rule, request): the same call made through the emitted   *)
 (* sync client, asyncio client and REST client, observed at the loopback   *)
 (* servers.  Logged steps:                                                 *)
@@ -9,6 +10,8 @@
 (*   encode  the raw header text seen on the wire, classified character by *)
 (*           character (words, EQ AMP SLASH, %c escapes, RAW:c)            *)
 (*   send    what the server reads: header present?, parse_qsl pairs       *)
+(*   fetch   a paginated method: the pager issues the call for page 2, 3.. *)
+(*           (every event carries the page index of the call it belongs to)*)
 (*   refuse  the REST transport raised before any HTTP request was made    *)
 (* The steps inside the emitted client (BuildParam / BuildVar / Finish)    *)
 (* are not observable from outside and are taken silently, so every        *)
@@ -21,20 +24,25 @@ N == Len(Traces)
 tvars == <<vars, tid, l>>
 Ev == Traces[tid].events
 
-ResetFor(t) == /\ rule' = Traces[t].rule /\ req' = Traces[t].req
+(* JSON has no sets: rule.opt and blank arrive as arrays *)
+RuleOf(t) == [Traces[t].rule EXCEPT !.opt = ToSet(@)]
+ResetFor(t) == /\ rule' = RuleOf(t) /\ req' = Traces[t].req /\ blank' = ToSet(Traces[t].blank)
+               /\ npages' = Traces[t].npages /\ page' = 1
                /\ pc' = "idle" /\ want' = 0 /\ cur' = NoCur /\ todo' = {} /\ calls' = 1 /\ pidx' = 1
                /\ i' = 0 /\ hdr' = {} /\ present' = FALSE /\ text' = <<>> /\ sent' = NoneSent
 TInit == /\ tid = 1 /\ l = 1 /\ TLCSet(1, 0) /\ TLCSet(2, <<0, 0>>)
-         /\ rule = Traces[1].rule /\ req = Traces[1].req
+         /\ rule = RuleOf(1) /\ req = Traces[1].req /\ blank = ToSet(Traces[1].blank)
+         /\ npages = Traces[1].npages /\ page = 1
          /\ pc = "idle" /\ want = 0 /\ cur = NoCur /\ todo = {} /\ calls = 1 /\ pidx = 1
          /\ i = 0 /\ hdr = {} /\ present = FALSE /\ text = <<>> /\ sent = NoneSent
 
 IsEvent(e) == tid <= N /\ l <= Len(Ev) /\ Ev[l].ev = e /\ l' = l + 1 /\ tid' = tid
 OnPath == pidx <= 3 /\ Ev[l].path = Path
 Logged(ps) == {<<ps[j][1], ps[j][2]>> : j \in 1..Len(ps)}
-TInvoke == IsEvent("invoke") /\ OnPath /\ Invoke
-TEncode == IsEvent("encode") /\ OnPath /\ EncodeAs(Ev[l].text)
-TSend   == IsEvent("send") /\ OnPath /\ Send
+TInvoke == IsEvent("invoke") /\ OnPath /\ Invoke /\ Ev[l].page = 1
+TFetch  == IsEvent("fetch") /\ OnPath /\ NextPage /\ Ev[l].page = page'      \* the pager's call for page 2, 3, ..
+TEncode == IsEvent("encode") /\ OnPath /\ Ev[l].page = page /\ EncodeAs(Ev[l].text)
+TSend   == IsEvent("send") /\ OnPath /\ Ev[l].page = page /\ Send
            /\ sent'[Ev[l].path].present = Ev[l].present
            /\ sent'[Ev[l].path].pairs = Logged(Ev[l].pairs)
            /\ Len(Ev[l].pairs) = Cardinality(sent'[Ev[l].path].pairs)
@@ -45,7 +53,7 @@ TNextTrace == /\ tid <= N /\ l = Len(Ev) + 1 /\ pc = "done"
               /\ TLCSet(1, tid)
               /\ tid' = tid + 1 /\ l' = 1
               /\ IF tid + 1 <= N THEN ResetFor(tid + 1) ELSE UNCHANGED vars
-TNext == TInvoke \/ TEncode \/ TSend \/ TRefuse \/ TSilent \/ TNextTrace
+TNext == TInvoke \/ TFetch \/ TEncode \/ TSend \/ TRefuse \/ TSilent \/ TNextTrace
 TSpec == TInit /\ [][TNext]_tvars
 Progress == TLCSet(2, <<tid, l>>)          \* CONSTRAINT: remembers how far the batch got (workers 1)
 Accepted == PrintT(<<"ACCEPTED", TLCGet(1)>>) /\ PrintT(<<"REACHED", TLCGet(2)>>) /\ TLCGet(1) = N
